@@ -30,7 +30,7 @@ TIERS = {
     "quick": {"runs": 6000, "chunk": 100, "selftest": 64, "minimise_s": 30},
     "thorough": {"budget_s": 600, "chunk": 400, "selftest": 512, "minimise_s": 90},
 }
-PROBES = ["set_with_fault", "dict_key_fault", "required_field_excluded", "typed_addition_fault", "varargs_fault",
+PROBES = ["fixed_tuple_offending", "set_with_fault", "dict_key_fault", "required_field_excluded", "typed_addition_fault", "varargs_fault",
           "rule_leaf_fault", "length_bound_after_exclusion", "mode_required_field", "dependency_missing_for_kept_field", "excluded_field_with_dependency",
           "data_class_elements", "property_output_offending"]
 POL = ["throw", "exclude", "preserve"]
@@ -58,10 +58,22 @@ def generate(rng, tier):
         return ["opt", t_] if rng.random() < 0.25 else t_
     if kind == "rule":
         t = maybe_opt(tdsl.gen_container(rng, rng.choice([1, 1, 1, 2, 2, 3]), rule_leaves=RL, dc_items=True))
-        plan["type"] = t
-        plan["input"] = tdsl.gen_value(rng, t, pool, positions)
-        if rng.random() < 0.3:
-            plan["max_len"] = rng.choice([1, 2, 3])
+        if rng.random() < 0.1:
+            # a fixed-length tuple whose surplus items are typed by Options(addition=...): only 'preserve' is judged there
+            t = ["ftup"] + [tdsl.gen_scalar(rng, rule_leaves=RL) for _ in range(rng.choice([1, 2, 2, 3]))]
+            plan["tup_addition"] = rng.choice(["leaf", "leaf", True, None])
+            plan["type"] = t
+            v = tdsl.gen_value(rng, t, pool, positions)
+            v["$tuple"] += [tdsl.gen_value(rng, ["leaf"], pool, positions, ("+", j)) for j in range(rng.choice([0, 1, 2, 3]))]
+            plan["input"] = v
+            for k in plan["policies"]:
+                if plan["policies"][k] == "exclude":
+                    plan["policies"][k] = "preserve"
+        else:
+            plan["type"] = t
+            plan["input"] = tdsl.gen_value(rng, t, pool, positions)
+            if rng.random() < 0.3:
+                plan["max_len"] = rng.choice([1, 2, 3])
     elif kind in ("schema", "dataclass"):
         fields = []
         inp = {}
@@ -80,6 +92,8 @@ def generate(rng, tier):
                 f["max_len"] = rng.choice([1, 2, 3])
             if not f["required"] and f["default"] in ("none", "leaf") and rng.random() < 0.2:
                 f["defer"] = True      # Field(defer_default=True): the default is not part of the parsed result
+            if rng.random() < 0.2:
+                f["alias"] = "A_" + f["name"]      # Field(alias=...): the input and the key view use the alias, the attribute view the name
             fields.append(f)
             inp[f["name"]] = tdsl.gen_value(rng, t, pool, positions, (f["name"],))
         if rng.random() < 0.3:
@@ -104,9 +118,12 @@ def generate(rng, tier):
     else:
         plan["kwonly"] = rng.random() < 0.5
         plan["nargs"] = rng.choice([0, 1, 2, 3])
-        plan["a"] = tdsl.gen_value(rng, ["leaf"], pool, positions, ("a",))
-        plan["args"] = [tdsl.gen_value(rng, ["leaf"], pool, positions, ("*", i)) for i in range(plan["nargs"])]
-        plan["kwargs"] = {"k%d" % i: tdsl.gen_value(rng, ["leaf"], pool, positions, ("**", i))
+        # the declared types of a / *args / **kwargs: harness leaves, constrained leaves, logical combinations
+        ft = {r: (tdsl.gen_scalar(rng, rule_leaves=RL) if rng.random() < 0.6 else ["leaf"]) for r in ("a", "args", "kwargs")}
+        plan["ftypes"] = ft
+        plan["a"] = tdsl.gen_value(rng, ft["a"], pool, positions, ("a",))
+        plan["args"] = [tdsl.gen_value(rng, ft["args"], pool, positions, ("*", i)) for i in range(plan["nargs"])]
+        plan["kwargs"] = {"k%d" % i: tdsl.gen_value(rng, ft["kwargs"], pool, positions, ("**", i))
                           for i in range(rng.choice([0, 1, 2]))}
         plan["opts_at"] = "class"
     # faults: any subset of reachable leaf positions, biased to "some but not all"
@@ -143,7 +160,10 @@ def build(plan, strict=False):
         if plan.get("max_len"):
             from utype import Rule
             T = Rule.parse_annotation(annotation=tdsl.build_type(plan["type"]), constraints={"max_length": plan["max_len"]})
-        opts = _strict_options() if strict else _options(plan)
+        extra = {}
+        if plan.get("tup_addition") is not None:
+            extra["addition"] = faults.Leaf if plan["tup_addition"] == "leaf" else plan["tup_addition"]
+        opts = _strict_options(**extra) if strict else _options(plan, **extra)
         return lambda v: utype.type_transform(v, T, options=opts)
     if kind in ("schema", "dataclass"):
         ns = {"__annotations__": {}, "__module__": "verif_c11", "__qualname__": "M"}
@@ -166,6 +186,8 @@ def build(plan, strict=False):
                 kw["defer_default"] = True
             if f.get("deps"):
                 kw["dependencies"] = ["d0"]
+            if f.get("alias"):
+                kw["alias"] = f["alias"]
             if f["on_error"] and not strict:
                 kw["on_error"] = f["on_error"]
             if kw:
@@ -202,18 +224,24 @@ def build(plan, strict=False):
             ns["__options__"] = class_opts
         base = Schema if kind == "schema" else DataClass
         cls = type("M", (base,), ns)
+        al = {f["name"]: f["alias"] for f in plan["fields"] if f.get("alias")}
+
+        def spell(v):
+            return {al.get(k, k): x for k, x in v.items()}
         if plan["opts_at"] == "class":
-            return lambda v: cls(**v)
-        return lambda v: cls.__from__(v, options=opts)
+            return lambda v: cls(**spell(v))
+        return lambda v: cls.__from__(spell(v), options=opts)
     if kind == "func":
         opts = _strict_options() if strict else _options(plan)
         got = {}
         if plan["kwonly"]:
-            def f(a: faults.Leaf, *args: faults.Leaf, **kwargs: faults.Leaf):
+            def f(a, *args, **kwargs):
                 return (a, args, kwargs)
         else:
-            def f(a: faults.Leaf = None, *args: faults.Leaf, **kwargs: faults.Leaf):
+            def f(a=None, *args, **kwargs):
                 return (a, args, kwargs)
+        ft = plan.get("ftypes") or {"a": ["leaf"], "args": ["leaf"], "kwargs": ["leaf"]}
+        f.__annotations__ = {r: tdsl.build_type(ft[r]) for r in ("a", "args", "kwargs")}
         f.__module__ = "verif_c11"
         f.__qualname__ = f.__name__ = "f"
         g = utype.parse(f, options=opts, no_cache=True)
@@ -282,6 +310,27 @@ def ref(t, v, pol):
 
 def ref_plan(plan, value, pol, stats):
     kind = plan["kind"]
+    if kind == "rule" and plan["type"][0] == "ftup":
+        types = plan["type"][1:]
+        if len(value) < len(types):
+            return FAIL
+        out = []
+        for i, e in enumerate(value):
+            if i >= len(types):
+                if plan.get("tup_addition") is None:
+                    break       # surplus items are dropped
+                if plan["tup_addition"] is True:
+                    out.append(e)
+                    continue
+            r = _scalar_alone(types[i] if i < len(types) else ["leaf"], e)
+            if r is FAIL:
+                stats["probe:fixed_tuple_offending"] += 1
+                if pol["invalid_items"] == "preserve":
+                    r = e
+                else:
+                    return FAIL
+            out.append(r)
+        return tuple(out)
     if kind == "rule":
         r = ref(plan["type"], value, pol)
         if r is not FAIL and r is not None and plan.get("max_len") and len(r) > plan["max_len"]:
@@ -353,7 +402,8 @@ def ref_plan(plan, value, pol, stats):
                 out[key] = r
         return out
     if kind == "func":
-        a = _scalar_alone(["leaf"], value["a"])
+        ft = plan.get("ftypes") or {"a": ["leaf"], "args": ["leaf"], "kwargs": ["leaf"]}
+        a = _scalar_alone(ft["a"], value["a"])
         if a is FAIL:
             p = pol["invalid_values"]
             if p == "exclude":
@@ -366,7 +416,7 @@ def ref_plan(plan, value, pol, stats):
                 return FAIL
         args = []
         for e in value["args"]:
-            r = _scalar_alone(["leaf"], e)
+            r = _scalar_alone(ft["args"], e)
             if r is FAIL:
                 stats["probe:varargs_fault"] += 1
                 p = pol["invalid_items"]
@@ -379,7 +429,7 @@ def ref_plan(plan, value, pol, stats):
             args.append(r)
         kwargs = {}
         for key, v in value["kwargs"].items():
-            r = _scalar_alone(["leaf"], v)
+            r = _scalar_alone(ft["kwargs"], v)
             if r is FAIL:
                 p = pol["invalid_values"]
                 if p == "exclude":
@@ -403,7 +453,8 @@ def _observe(result, plan):
     if plan["kind"] == "dataclass":
         return {k: v for k, v in result.__dict__.items() if k != "__context__"}
     if plan["kind"] == "schema":
-        return dict(result)
+        back = {f["alias"]: f["name"] for f in plan["fields"] if f.get("alias")}
+        return {back.get(k, k): v for k, v in dict(result).items()}
     return result
 
 
